@@ -4,6 +4,7 @@ package main
 // One case = (params tokens ops); implementation output = per op (code state-projection).
 
 import (
+	"os"
 	"crypto/sha256"
 	"encoding/binary"
 	"fmt"
@@ -168,6 +169,8 @@ func (op *HubOp) val(env *Env) V {
 		return L(I(5), I(op.Height), I(op.TimeMs), L())
 	case 6:
 		return L(I(6))
+	case 8:
+		return L(I(8))
 	default:
 		var toks, hs, ps []V
 		for _, t := range op.Tokens {
@@ -235,6 +238,12 @@ func (r *HubRun) exec(op *HubOp) (int64, string) {
 		return outcome(func() error { mhub2.BeginBlocker(env.Ctx, env.K); return nil })
 	case 6:
 		return outcome(func() error { mhub2.EndBlocker(env.Ctx, env.K); return nil })
+	case 8:
+		code, m := outcome(func() error { env.Restart(); return nil })
+		if code != 0 && os.Getenv("VERIF_DEBUG") != "" {
+			fmt.Fprintln(os.Stderr, "restart:", m)
+		}
+		return code, m
 	default:
 		env.K.SetTokenInfos(env.Ctx, &types.TokenInfos{TokenInfos: op.Tokens})
 		env.Oracle.Holders = map[string]sdk.Int{}
